@@ -24,7 +24,10 @@ Proof. destruct t; reflexivity. Qed.
 Inductive linearized (init : option value) : list (nat * op * res) -> option value -> Prop :=
 | lin_nil : linearized init [] init
 | lin_cons i o h st : linearized init h st ->
-    linearized init ((i, o, snd (spec_op st o)) :: h) (fst (spec_op st o)).
+    linearized init ((i, o, snd (spec_op st o)) :: h) (fst (spec_op st o))
+(* SetExpiration never changes the register; it answers nil only if the register holds a value (and the cache has it), else "not found" *)
+| lin_exp i k r h st : linearized init h st -> exp_res_ok st r ->
+    linearized init ((i, OSetExp k, r) :: h) st.
 
 Section One.
   Variable T : tables.
@@ -36,7 +39,8 @@ Section One.
   Hypothesis H1 : two_tier T c k = false.
   Let ct := cache_tier_for_key T c k.
 
-  Definition op_ok (o : op) : Prop := op_key o = k /\ is_list_op o = false.
+  Definition one_call (o : op) : bool := match o with OAppend _ _ | ORemove _ _ | OSetExp _ => false | _ => true end.
+  Definition op_ok (o : op) : Prop := op_key o = k /\ one_call o = true.
 
   Lemma pers_off : is_pers_cat (category T k) && en_pers c = false.
   Proof. exact H1. Qed.
@@ -53,7 +57,7 @@ Section One.
     assert (Hlo : locks_op c o = false) by (unfold locks_op; rewrite Hwb; destruct o; reflexivity). rewrite Hlo.
     unfold pop_fault. rewrite Hf.
     pose proof (ctk_cases T c k) as Hct. pose proof pers_off as Hp. fold ct in Hct.
-    destruct o as [k0 v|k0|k0|k0|k0 x|k0 x|k0|k0 v]; cbn in Hk, Hl; try discriminate; subst k0; cbn [op_start].
+    destruct o as [k0 v|k0|k0|k0|k0 x|k0 x|k0|k0 v|k0]; cbn in Hk, Hl; try discriminate; subst k0; cbn [op_start].
     - (* Set *)
       unfold set_start. destruct (category T k) eqn:Hc; cbn [is_pers_cat andb] in Hp; try rewrite Hp; rewrite <- ?Hct;
         unfold finish; cbn [cur cpc ops faults me held fst snd spec_op]; rewrite ?Hh;
@@ -128,7 +132,7 @@ Section One.
     linearized init h st -> only_incr h ->
     (forall n, In n (incr_vals h) -> exists m, st = Some (VInt m) /\ (n <= m)%N) /\ NoDup (incr_vals h).
   Proof.
-    induction 1 as [|i o h st Hl IH]; intros Ho; cbn [incr_vals flat_map].
+    induction 1 as [|i o h st Hl IH|i k0 r h st Hl IH Hr]; intros Ho; cbn [incr_vals flat_map].
     - split; [intros n []|constructor].
     - inversion Ho as [|? ? (kk & Ek) Hr]; subst. cbn in Ek. subst o.
       destruct (IH Hr) as [IH1 IH2]. fold (incr_vals h).
@@ -143,5 +147,6 @@ Section One.
         * intros m [<-|Hm]; [exists 1%N; split; [reflexivity|lia]|].
           destruct (IH1 m Hm) as (m' & Hx & _). discriminate.
         * cbn. constructor; [|exact IH2]. intros Hin. destruct (IH1 _ Hin) as (m' & Hx & _). discriminate.
+    - inversion Ho as [|? ? (kk & Ek) Hrest]; subst. cbn in Ek. discriminate.
   Qed.
 End One.
